@@ -1666,6 +1666,8 @@ class Lower:
                         fld = ci['anyInit']['name']
                         ik = kids(ci)
                         e = self.ex(ik[0]) if ik else '0'
+                        if ik and qt(ci['anyInit']).rstrip().endswith('&'):
+                            e = self.addr(e)          # reference member: bound to the object, i.e. a pointer
                         for p in self.pre:
                             out.append('  ' + p)
                         self.pre = []
